@@ -874,6 +874,45 @@ impl<'tcx> Facts<'tcx> {
         J::Arr(out)
     }
 
+    /// associated / free constants of the crate with the MIR of their initialiser (so that a rule engine can see
+    /// what `<E as Trait>::CONST` is for a given implementor)
+    fn consts(&self) -> J {
+        let tcx = self.tcx;
+        let mut out = Vec::new();
+        for ldid in tcx.hir_body_owners() {
+            let did = ldid.to_def_id();
+            let kind = tcx.def_kind(did);
+            if !matches!(kind, DefKind::AssocConst { .. } | DefKind::Const { .. }) {
+                continue;
+            }
+            let body: &Body<'tcx> = tcx.mir_for_ctfe(did);
+            let mut o = J::obj()
+                .f("path", J::s(self.path(did)))
+                .f("name", J::s(tcx.item_name(did).to_string()));
+            if let Some(imp) = tcx.impl_of_assoc(did) {
+                let sty = tcx.type_of(imp).instantiate_identity().skip_norm_wip();
+                if let ty::Adt(d, _) = sty.kind() {
+                    o = o.f("impl_adt", J::s(self.path(d.did())));
+                }
+                if let Some(tref) = tcx.impl_opt_trait_ref(imp) {
+                    o = o.f("impl_trait", J::s(self.path(tref.skip_binder().def_id)));
+                }
+            }
+            if let Some(tr) = tcx.trait_of_assoc(did) {
+                o = o.f("in_trait", J::s(self.path(tr)));
+            }
+            let locals: Vec<J> = body
+                .local_decls
+                .iter()
+                .map(|d| J::obj().f("ty", self.ty_tree(d.ty, 0)).done())
+                .collect();
+            let blocks: Vec<J> =
+                body.basic_blocks.iter().map(|bb| self.block(did, body, bb)).collect();
+            out.push(o.f("locals", J::Arr(locals)).f("blocks", J::Arr(blocks)).done());
+        }
+        J::Arr(out)
+    }
+
     fn traits(&self) -> J {
         let tcx = self.tcx;
         let mut out = Vec::new();
@@ -924,6 +963,7 @@ impl<'tcx> Facts<'tcx> {
             .f("impls", self.impls())
             .f("traits", self.traits())
             .f("fns", self.fns())
+            .f("consts", self.consts())
             .done()
     }
 }
